@@ -143,7 +143,8 @@ def main():
             exp = max(0, n - w)
             rel = "short" if n <= w else "long"
             if len(set(counts)) > 1:
-                V.violation({"pipe": c.pipe, "symptom": "unequal-outputs", "len": rel},
+                longer = [i for i, k in enumerate(counts) if k > min(counts)]
+                V.violation({"pipe": c.pipe, "symptom": "unequal-outputs", "len": rel, "longer": str(longer)},
                             "%s n=%d: outputs have different lengths %s (declared warm-up %d)" % (c.key(), n, counts, w),
                             replay)
             elif any(k != exp for k in counts):
